@@ -8,7 +8,8 @@ RULE = ("random multifurcating trees (3..14 tips, rooted/unrooted, parent slot a
         "unroot, rotate with a recorded rand stream, sort}; "
         "outgroup / midpoint: trees with a length on every branch (3..12 tips, root with >= 2 neighbours, rooted/unrooted/"
         "multifurcating, parent slots anywhere; length styles: random with zeros, half zero, all zero, all equal (ties), "
-        "small integers (ties), a few with missing lengths or duplicated node names for the refusals), midpoint once per tree, "
+        "small integers (ties), a few with missing lengths or duplicated node names for the refusals; plus the rooted two-tip "
+        "tree with present/zero/missing lengths), midpoint once per tree, "
         "outgroups = clade / complement of a clade / single tip / all but one tip / several-but-not-all children of a "
         "multifurcation / random subset / with absent names, inner-node names and repeated names / only absent names / "
         "all tips / empty list, x remove x strict; plus, with remove, an outgroup containing the node the tree hangs from "
@@ -193,6 +194,18 @@ def gen(rng, tier):
     for t, style in root_trees(rng, g, m, 12 if tier != "thorough" else 24):
         for o, meta in root_cases(rng, t, style, tier):
             out.append({"sx": sx(o), "meta": meta})
+    # the rooted two-tip tree (the one input that UnRoot leaves hanging from a tip): outgroup is refused (< 3 tips),
+    # midpoint gives (a:l/2,b:l/2)
+    for i in range({"quick": 8, "thorough": 60, "search": 12}[tier]):
+        def tipnode(nm): return {"name": nm, "coms": [], "slots": [None]}
+        def edge(l): return {"len": l, "sup": None, "pv": None, "coms": []}
+        la = [Fraction(rng.randrange(0, 129), 64), Fraction(0), None][i % 3] if i < 6 else g.length("mixed")
+        lb = [Fraction(rng.randrange(0, 129), 64), Fraction(0), None][(i // 3) % 3] if i < 6 else g.length("mixed")
+        t = {"name": "", "coms": [], "slots": [(edge(la), tipnode("t0")), (edge(lb), tipnode("t1"))]}
+        meta = {"ntips": 2, "rooted": True, "lens": "twotip"}
+        out.append({"sx": sx({"op": Sym("midpoint"), "tree": T(t)}), "meta": dict(meta, op="midpoint")})
+        out.append({"sx": sx({"op": Sym("outgroup"), "tree": T(t), "names": ["t0"], "remove": i % 2 == 0, "strict": False}),
+                    "meta": dict(meta, op="outgroup", og="twotip")})
     # every tip subset of small trees, both flags
     m = {"quick": 4, "thorough": 150, "search": 10}[tier]
     for t, style in root_trees(rng, g, m, 5 if tier == "quick" else 6):
